@@ -152,7 +152,11 @@ def extract_selected_variable_and_expression(symbolic_cls: Type, domain: Optiona
     """
     # A variable without a domain ranges over the registry of instances, which is read when the variable is evaluated
     # (not here), because instances of the class and of new subclasses can still be constructed until then.
-    if domain and is_iterable(domain.domain):
+    if domain and isinstance(domain.domain, SymbolicExpression):
+        # the values of another variable or the solutions of another query: they are produced (and filtered by type) when
+        # this variable is evaluated. (A variable is iterable, but what it iterates over are its bindings.)
+        pass
+    elif domain and is_iterable(domain.domain):
         # do not touch the caller's From object: it may be shared by several variables (and the filter is one-shot).
         domain = From(filter(lambda v: isinstance(v, symbolic_cls), domain.domain))
     elif domain and not isinstance(domain.domain, (SymbolicExpression, symbolic_cls)):
